@@ -113,8 +113,8 @@ MANIFEST_META = {
         'note': 'The remainder is specified operationally (long division); uniqueness of the remainder / the quotient identity data*x^ec = q*g + r is a mathematical fact about the model that is not mechanised. Table 9 degrees come from the qrcode-0.12 transcription.',
     },
     'C02': {
-        'text': 'Verus proves that ecc_to_groups, data_codewords, max_bytes, missing_bits equal ISO Table 9 / the geometry formula for all 160 cells (with the consistency lemma blocks x sizes + blocks x ec = total), and that polynomials::structure lays out, for every data content, data codeword p of block b at the ISO interleaved position, EC codeword j of block b (the proved division remainder of that block) at dc + j*blocks + b, and zeros beyond the total (hence zero remainder bits before masking); all index arithmetic is proved in bounds.',
-        'note': 'All-zero syndromes and the floor(ec/2) correction capacity follow from EC = data*x^ec mod g with g = prod (x - alpha^i); that algebraic step is NOT mechanised (model-level mathematics, no code involved). No assumed contract on the path.',
+        'text': 'Verus proves that ecc_to_groups, data_codewords, max_bytes, missing_bits equal ISO Table 9 / the geometry formula for all 160 cells (with the consistency lemma blocks x sizes + blocks x ec = total), and that polynomials::structure lays out, for every data content, data codeword p of block b at the ISO interleaved position, EC codeword j of block b (the proved division remainder of that block) at dc + j*blocks + b, and zeros beyond the total (hence zero remainder bits before masking); all index arithmetic is proved in bounds; and, as a theorem about the model, that every block of that sequence has all-zero syndromes at alpha^0..alpha^(ec-1).',
+        'note': 'All-zero syndromes are MECHANISED (spec/iso_synd.vrs, spec/iso_blocks_synd.vrs): field laws of GF(256) from the bit-level definition of the product, Horner evaluation, alpha^0..alpha^(ec-1) are roots of the generator, the long division keeps the value at every root and clears the positions it visits, hence every block codeword read from the ISO final sequence evaluates to zero at alpha^i, i < ec (lemma_block_syndromes). The step from zero syndromes to "up to floor(ec/2) corrupted codewords per block are correctable" (minimum distance ec+1 of the RS code, existence of a decoder) is standard coding theory and is NOT mechanised. No assumed contract on the path.',
     },
     'C18': {
         'text': 'Kani proves, with a loop-free harness over the complete finite domain (40 sizes x 3 frame shapes, symbolic), that SvgBuilder::image_placement yields a frame whose side is an odd whole number of modules >= 5, below 40% of the symbol side, at least 8 modules clear of every edge (finder + separator), with n - side even (so the centred frame lies on module boundaries), non-decreasing in the version, and an image side that is a whole number between 1 and the frame side. BOUNDED stand-in for SvgBuilder::image() (centring, parity adjustment, explicit size/gap/position), a function interleaving f64 arithmetic with string formatting on which neither Verus nor Kani can take a contract: the native harness renders every version x shape x margin 0..16 with default placement (2040 cases, exhaustive for the defaults) and 800/4000 sampled real-valued overrides through the public API and reads the frame <rect> and the <image> element back from the SVG text (centred, module-aligned, < 40%, clear of finders, monotone, image inside and centred, requested size/gap/position honoured with at most one module of alignment adjustment).',
